@@ -119,13 +119,16 @@ class CSSStyleSheet(cssutils.stylesheets.StyleSheet):
     def _getUsedURIs(self):
         "Return set of URIs used in the sheet."
         useduris = set()
-        for r1 in self:
-            if r1.STYLE_RULE == r1.type:
-                useduris.update(r1.selectorList._getUsedUris())
-            elif r1.MEDIA_RULE == r1.type:
-                for r2 in r1:
-                    if r2.type == r2.STYLE_RULE:
-                        useduris.update(r2.selectorList._getUsedUris())
+
+        def collect(rules):
+            for r in rules:
+                if r.STYLE_RULE == r.type:
+                    useduris.update(r.selectorList._getUsedUris())
+                elif r.MEDIA_RULE == r.type:
+                    # @media may be nested
+                    collect(r)
+
+        collect(self)
         return useduris
 
     @property
